@@ -303,6 +303,18 @@ def r12_5(ctx):
         rdef = [s2 for s2 in body_walk(cd.node) if isinstance(s2, ast.Assign) and norm(s2.targets[0]) == norm(r)]
         from_mem = bool(rdef) and "self.sequences" in norm(rdef[0].value, 300)
         okv = from_db and from_mem
+    # ... on every path: a commit that returns before it has looked at the rows in the db (an "empty mailbox has nothing to
+    # store" shortcut) leaves the rows of a mailbox that has just been emptied
+    from .. import flow as _flow
+    g = ctx.cfg(cd)
+    looks = {n.id for n in g.nodes if n.ast is not None and "select name from sequences" in norm(n.ast, 400).lower()}
+    dn = {n.id for n in g.nodes if n.ast is not None and n.kind == "stmt" and any(c is dele[0] for c in ast.walk(n.ast))}
+    ctx.require(looks and dn, "commit_to_db: CFG nodes of the SELECT / DELETE on sequences not found")
+    skip = _flow.escapes_without(g, g.entry, lambda x: x in looks, [g.exit])
+    ctx.paths_explored += 1
+    if skip is not None:
+        ctx.bad("R12.5", cd.module, cd.qual, "return before SELECT name FROM sequences", "commit_to_db can return without having compared the sequence rows in the db with the sequences in memory: when a mailbox loses its last flag set (everything expunged, RENAME INBOX, delete to \\Noselect) its rows survive, are reloaded at the next start and land on the messages that re-use the keys", g.nodes[skip[-2]].line if len(skip) > 1 else cd.node.lineno, _flow.fmt_path(g, skip))
+        okv = False
     if okv:
         ctx.ok("R12.5", where(cd), "sequence rows deleted = names present in the db minus names present in memory")
     else:
